@@ -6,6 +6,7 @@ Import-free apart from the pool model and the config model (linked into the `dpm
 -/
 import DeadpoolVerif.Model.Managed
 import DeadpoolVerif.Model.PgConfig
+import DeadpoolVerif.Model.Solo
 
 namespace DeadpoolVerif
 namespace PgP
@@ -24,6 +25,30 @@ def recycle (closed : Bool) (m : Pg.RecyclingMethod) (r : QueryReply) : Option S
   match m.query with
   | none => (none, true)
   | some sql => (some sql, r == .ok)
+
+/-- state of the environment of the sequential driver during one get(): which clients are
+closed, the scripted replies still to come, the check queries sent so far (client, sql) -/
+structure EnvSt where
+  closed : List Nat
+  replies : List QueryReply
+  queries : List (Nat × String) := []
+deriving Inhabited
+
+/-- the environment of the sequential driver: internal steps run, `create` and the hooks
+succeed, `Manager::recycle` answers what `recycle` decides; a check query on an open client
+consumes the next scripted reply (a missing one means success), a disconnect closes the client -/
+def env (m : Pg.RecyclingMethod) : Solo.Env EnvSt := fun e s i =>
+  match Solo.atRecycle s i with
+  | some o =>
+    let closed := e.closed.contains o.id
+    let sends := !closed && m.query.isSome
+    let r := if sends then e.replies.headD .ok else .ok
+    let res := recycle closed m r
+    some (if res.2 then .ok else .err,
+          { closed := if sends && r == .disconnect then o.id :: e.closed else e.closed,
+            replies := if sends then e.replies.tail else e.replies,
+            queries := e.queries ++ (match res.1 with | some q => [(o.id, q)] | none => []) })
+  | none => (Solo.defaultOutcome (fun _ => true) s i).map fun oc => (oc, e)
 
 /-! ### `StatementCache` -/
 
